@@ -22,6 +22,8 @@ inductive PyTy where
 inductive Acc where
   | unary
   | ty (t : PyTy)
+  /-- a tuple of classes -/
+  | tys (l : List PyTy)
   | untyped
   deriving DecidableEq, Repr, Inhabited
 
